@@ -735,6 +735,8 @@ func NewQueryFromProto(p *pb.QueryProto) (Query, error) {
 	switch q := p.Query.(type) {
 	case *pb.QueryProto_All:
 		return All{}, nil
+	case *pb.QueryProto_Empty:
+		return Empty{}, nil
 	case *pb.QueryProto_Keyed:
 		return Keyed{q.Keyed}, nil
 	case *pb.QueryProto_Tagged:
